@@ -120,29 +120,32 @@ Lemma overlap_test_benign e1 e2 : benign (overlap_test dsz0 e1 e2).
 Proof.
   unfold overlap_test. pose proof (dsz0_benign e1) as B1. pose proof (dsz0_benign e2) as B2.
   destruct (dsz0 e1); cbn [bind benign] in *; try exact B1.
-  destruct (dsz0 e2); cbn [bind benign] in *; try exact B2. exact I.
+  destruct (dsz0 e2); cbn [bind benign] in *; try exact B2; try exact I.
 Qed.
 
-Lemma overlap_test_false e1 e2 : fent_typed e1 -> fent_typed e2 -> overlap_test dsz0 e1 e2 = Ok false ->
+Lemma overlap_test_false e1 e2 : fent_typed e1 -> fent_typed e2 ->
+  overlap_test dsz0 e1 e2 = Ok false ->
   exists s1 s2, dsz0 e1 = Ok s1 /\ dsz0 e2 = Ok s2 /\ ~ overlapZ (fa e1) s1 (fa e2) s2.
 Proof.
-  unfold overlap_test. intros (A1 & _) (A2 & _) H.
+  unfold overlap_test. intros T1 T2 H.
   destruct (dsz0 e1) as [s1| | |] eqn:E1; cbn [bind] in H; try discriminate.
   destruct (dsz0 e2) as [s2| | |] eqn:E2; cbn [bind] in H; try discriminate.
   exists s1, s2. split; [reflexivity|]. split; [reflexivity|].
-  destruct (dsz0_inv _ _ ltac:(split; eassumption || lia) E1) as (S1 & W1) || idtac.
+  destruct (dsz0_inv _ _ T1 E1) as (S1 & W1). destruct (dsz0_inv _ _ T2 E2) as (S2 & W2).
+  destruct T1 as ((A1 & _) & _). destruct T2 as ((A2 & _) & _).
   unfold end64 in H. rewrite !wrap64_small in H by lia. injection H as H.
   intros (x & Hx1 & Hx2).
   destruct (fa e1 >=? fa e2 + s2) eqn:Ea; destruct (fa e2 >=? fa e1 + s1) eqn:Eb; cbn in H; try discriminate; lia.
 Qed.
 
 (** conversely, for non-empty ranges (an empty range strictly inside another one is reported) *)
-Lemma overlap_test_complete e1 e2 s1 s2 :
+Lemma overlap_test_complete e1 e2 s1 s2 : fent_typed e1 -> fent_typed e2 ->
   dsz0 e1 = Ok s1 -> dsz0 e2 = Ok s2 -> 0 < s1 -> 0 < s2 ->
   ~ overlapZ (fa e1) s1 (fa e2) s2 -> overlap_test dsz0 e1 e2 = Ok false.
 Proof.
-  intros E1 E2 P1 P2 H. unfold overlap_test. rewrite E1, E2. cbn [bind].
-  destruct (dsz0_inv _ _ E1) as (A1 & S1 & W1). destruct (dsz0_inv _ _ E2) as (A2 & S2 & W2).
+  intros T1 T2 E1 E2 P1 P2 H. unfold overlap_test. rewrite E1, E2. cbn [bind].
+  destruct (dsz0_inv _ _ T1 E1) as (S1 & W1). destruct (dsz0_inv _ _ T2 E2) as (S2 & W2).
+  destruct T1 as ((A1 & _) & _). destruct T2 as ((A2 & _) & _).
   unfold end64. rewrite !wrap64_small by lia. f_equal.
   destruct (fa e1 >=? fa e2 + s2) eqn:Ea; [reflexivity|].
   destruct (fa e2 >=? fa e1 + s1) eqn:Eb; [reflexivity|].
@@ -287,16 +290,255 @@ Proof. unfold verd_of_covers, pass, fail, ierr; destruct o as [[|]| | |]; cbn; i
 (** the instance used throughout: the size function of the code over typed entries *)
 Definition typed_table (l : list fent) : Prop := forall e, In e l -> fent_typed e.
 
-(** [dsz mem] restricted to the entries of a typed table satisfies the section hypotheses;
-    entries outside the table never matter, so the restriction is harmless *)
-Definition dszT (mem : physmem) (l : list fent) (e : fent) : outcome Z := dsz mem e.
+Lemma dsz_inv2 mem : forall e s, fent_typed e -> dsz mem e = Ok s -> 0 <= s /\ fa e + s < W64.
+Proof. intros e s T H. destruct (dsz_ok_inv mem e s T H) as (A & B & _). split; assumption. Qed.
 
-Lemma dsz_inv_in mem l : typed_table l -> forall e s, In e l -> dsz mem e = Ok s ->
-  0 <= fa e /\ 0 <= s /\ fa e + s < W64.
+(** ** NoIBBOverlap *)
+
+(** never a panic; a verdict (pass / fail) whenever no range leaves the address space *)
+Theorem NoIBBOverlap_total : forall mem l,
+  no_ibb_overlap (dsz mem) l <> VPanic.
 Proof.
-  intros Hty e s He H. destruct (dsz_ok_inv mem e s (Hty e He) H) as (S & W & _).
-  destruct (Hty e He) as (A & _). lia.
+  intros. apply verd_of_found_benign. apply pairs_benign. apply dsz_benign.
 Qed.
+
+(** SOUND for every table: a pass means that no two BIOS startup modules share a byte. *)
+Theorem NoIBBOverlap_sound : forall mem l, typed_table l ->
+  no_ibb_overlap (dsz mem) l = pass ->
+  forall l1 e1 l2 e2 l3, l = l1 ++ e1 :: l2 ++ e2 :: l3 ->
+    ft e1 = T_IBB -> ft e2 = T_IBB ->
+    ~ overlapZ (fa e1) (fs e1 * 16) (fa e2) (fs e2 * 16).
+Proof.
+  intros mem l Hty H l1 e1 l2 e2 l3 E T1 T2.
+  apply verd_of_found_pass in H.
+  assert (I1 : In e1 l) by (subst l; apply in_or_app; right; left; reflexivity).
+  assert (I2 : In e2 l) by (subst l; apply in_or_app; right; right; apply in_or_app; right; left; reflexivity).
+  pose proof (pairs_sound (dsz mem) T_IBB l H l1 e1 l2 e2 l3 E T1 T2) as Ho.
+  destruct (overlap_test_false (dsz mem) (dsz_inv2 mem) e1 e2 (Hty _ I1) (Hty _ I2) Ho) as (s1 & s2 & D1 & D2 & N).
+  destruct (dsz_ok_inv mem e1 s1 (Hty _ I1) D1) as (_ & _ & K1).
+  destruct (dsz_ok_inv mem e2 s2 (Hty _ I2) D2) as (_ & _ & K2).
+  rewrite <- K1, <- K2; [exact N| |]; rewrite ?T1, ?T2; unfold T_IBB, T_SACM; lia.
+Qed.
+
+(** EXACT on every table whose BIOS startup modules are non-empty and stay inside the
+    address space: touching modules (end of one = start of the next) are disjoint. *)
+Theorem NoIBBOverlap_exact_partial : forall mem l, typed_table l ->
+  (forall e, In e l -> ft e = T_IBB -> 0 < fs e /\ fa e + fs e * 16 < W64) ->
+  (no_ibb_overlap (dsz mem) l = pass <->
+   forall l1 e1 l2 e2 l3, l = l1 ++ e1 :: l2 ++ e2 :: l3 -> ft e1 = T_IBB -> ft e2 = T_IBB ->
+     ~ overlapZ (fa e1) (fs e1 * 16) (fa e2) (fs e2 * 16)).
+Proof.
+  intros mem l Hty Hne. split.
+  - intros H. exact (NoIBBOverlap_sound mem l Hty H).
+  - intros H. apply verd_of_found_pass. apply pairs_complete.
+    intros l1 e1 l2 e2 l3 E T1 T2.
+    assert (I1 : In e1 l) by (subst l; apply in_or_app; right; left; reflexivity).
+    assert (I2 : In e2 l) by (subst l; apply in_or_app; right; right; apply in_or_app; right; left; reflexivity).
+    destruct (Hne _ I1 T1) as (P1 & W1). destruct (Hne _ I2 T2) as (P2 & W2).
+    apply (overlap_test_complete (dsz mem) (dsz_inv2 mem) e1 e2 (fs e1 * 16) (fs e2 * 16));
+      [exact (Hty _ I1)|exact (Hty _ I2)|apply (dsz_ibb mem e1 T1 (Hty _ I1)); exact W1|
+       apply (dsz_ibb mem e2 T2 (Hty _ I2)); exact W2|lia|lia|exact (H l1 e1 l2 e2 l3 E T1 T2)].
+Qed.
+
+(** the usual FIT layout: two modules back to back, [FFF00000,FFF80000) and [FFF80000,4G) *)
+Definition fit_adjacent : list fent :=
+  [(7, 4293918720, 32768, 256); (7, 4294443008, 32768, 256)].
+
+Theorem NoIBBOverlap_adjacent_accepted : forall mem, no_ibb_overlap (dsz mem) fit_adjacent = pass.
+Proof. intros. vm_compute. reflexivity. Qed.
+
+(** nested modules whose ranges leave the 64-bit address space: no pass *)
+Theorem NoIBBOverlap_wrap64_rejected : forall mem,
+  no_ibb_overlap (dsz mem) [(7, 18446744073709551584, 4, 256); (7, 18446744073709551600, 1, 256)] = ierr.
+Proof. intros. vm_compute. reflexivity. Qed.
+
+(** ** NoBIOSACMOverlap *)
+
+Theorem NoBIOSACMOverlap_total : forall mem l, no_acm_overlap (dsz mem) l <> VPanic.
+Proof.
+  intros. apply verd_of_found_benign. apply pairs_all_benign. apply dsz_benign.
+Qed.
+
+(** SOUND for every table and every order of the entries: a pass means that the size of every
+    startup ACM could be read and no ACM shares a byte with a BIOS startup module (there must be
+    a BIOS startup module for the ACM sizes to be looked at). *)
+Theorem NoBIOSACMOverlap_sound : forall mem l, typed_table l ->
+  no_acm_overlap (dsz mem) l = pass ->
+  forall ibb acm, In ibb l -> In acm l -> ft ibb = T_IBB -> ft acm = T_SACM ->
+    exists s, dsz mem acm = Ok s /\ ~ overlapZ (fa ibb) (fs ibb * 16) (fa acm) s.
+Proof.
+  intros mem l Hty H ibb acm I1 I2 T1 T2.
+  apply verd_of_found_pass in H.
+  pose proof (pairs_all_sound (dsz mem) T_SACM l l H ibb acm I1 I2 T1 T2) as Ho.
+  destruct (overlap_test_false (dsz mem) (dsz_inv2 mem) ibb acm (Hty _ I1) (Hty _ I2) Ho) as (s1 & s2 & D1 & D2 & N).
+  destruct (dsz_ok_inv mem ibb s1 (Hty _ I1) D1) as (_ & _ & K1).
+  exists s2. split; [exact D2|]. rewrite <- K1; [exact N|]. rewrite T1. unfold T_IBB, T_SACM. lia.
+Qed.
+
+(** EXACT when the ranges are non-empty, inside the address space and every ACM header is readable *)
+Theorem NoBIOSACMOverlap_exact_partial : forall mem l, typed_table l ->
+  (forall e, In e l -> ft e = T_IBB -> 0 < fs e /\ fa e + fs e * 16 < W64) ->
+  (forall e, In e l -> ft e = T_SACM -> exists s, dsz mem e = Ok s /\ 0 < s) ->
+  (no_acm_overlap (dsz mem) l = pass <->
+   forall ibb acm s, In ibb l -> In acm l -> ft ibb = T_IBB -> ft acm = T_SACM -> dsz mem acm = Ok s ->
+     ~ overlapZ (fa ibb) (fs ibb * 16) (fa acm) s).
+Proof.
+  intros mem l Hty Hne Hrd. split.
+  - intros H ibb acm s I1 I2 T1 T2 D.
+    destruct (NoBIOSACMOverlap_sound mem l Hty H ibb acm I1 I2 T1 T2) as (s' & D' & N).
+    rewrite D in D'. injection D' as <-. exact N.
+  - intros H. apply verd_of_found_pass. apply pairs_all_complete.
+    intros h e I1 I2 T1 T2.
+    destruct (Hne _ I1 T1) as (P1 & W1). destruct (Hrd _ I2 T2) as (s & D & P2).
+    apply (overlap_test_complete (dsz mem) (dsz_inv2 mem) h e (fs h * 16) s);
+      [exact (Hty _ I1)|exact (Hty _ I2)|apply (dsz_ibb mem h T1 (Hty _ I1)); exact W1|exact D|lia|exact P2|
+       exact (H h e s I1 I2 T1 T2 D)].
+Qed.
+
+(** the ACM listed BEFORE the module that contains it is found *)
+Theorem NoBIOSACMOverlap_order_rejected :
+  no_acm_overlap (dsz [(4293984280, 16384)]) [(2, 4293984256, 0, 256); (7, 4293918720, 65536, 256)] = fail.
+Proof. vm_compute. reflexivity. Qed.
+
+(** the healthy FIT (an IBB, a disjoint ACM below 4 GiB) is accepted by both ACM checks *)
+Theorem ACMChecks_healthy_accepted :
+  let mem := [(4292870168, 16384)] in
+  let l := [(7, 4293918720, 65536, 256); (2, 4292870144, 0, 256)] in
+  no_acm_overlap (dsz mem) l = pass /\ acm_below_4g (dsz mem) l = pass /\
+  dsz mem (2, 4292870144, 0, 256) = Ok 65536.
+Proof. vm_compute. repeat split; reflexivity. Qed.
+
+(** ** BIOSACMIsBelow4G: exact for every table *)
+Theorem BIOSACMIsBelow4G_exact : forall mem l, typed_table l ->
+  (acm_below_4g (dsz mem) l = pass <->
+   forall e, In e l -> ft e = T_SACM -> exists s, dsz mem e = Ok s /\ fa e + s <= FOUR_GIB).
+Proof.
+  intros mem l. unfold acm_below_4g. induction l as [|e tl IH]; intros Hty.
+  - cbn. split; [intros _ e []|reflexivity].
+  - assert (IH' := IH (fun x Hx => Hty x (or_intror Hx))). clear IH.
+    cbn [acm_above_4g]. destruct (ft e =? T_SACM) eqn:Ee.
+    + destruct (dsz mem e) as [s| | |] eqn:D; cbn [bind].
+      * destruct (dsz_ok_inv mem e s (Hty e (or_introl eq_refl)) D) as (S & W & _).
+        destruct (Hty e (or_introl eq_refl)) as ((A & _) & _).
+        unfold end64. rewrite wrap64_small by lia.
+        destruct (fa e + s >? FOUR_GIB) eqn:Eg.
+        -- cbn [verd_of_found]. unfold pass, fail. split; [discriminate|]. intros H.
+           apply Z.eqb_eq in Ee. destruct (H e (or_introl eq_refl) Ee) as (s' & D' & L).
+           rewrite D in D'. injection D' as <-. lia.
+        -- rewrite IH'. split.
+           ++ intros H x [<-|Hx] Tx; [exists s; split; [assumption|lia]|auto].
+           ++ intros H x Hx Tx. apply H; [right; assumption|assumption].
+      * cbn [verd_of_found]. unfold pass, ierr. split; [discriminate|]. intros H.
+        apply Z.eqb_eq in Ee. destruct (H e (or_introl eq_refl) Ee) as (s' & D' & _). rewrite D in D'. discriminate.
+      * cbn [verd_of_found]. unfold pass. split; [discriminate|]. intros H.
+        apply Z.eqb_eq in Ee. destruct (H e (or_introl eq_refl) Ee) as (s' & D' & _). rewrite D in D'. discriminate.
+      * cbn [verd_of_found]. unfold pass. split; [discriminate|]. intros H.
+        apply Z.eqb_eq in Ee. destruct (H e (or_introl eq_refl) Ee) as (s' & D' & _). rewrite D in D'. discriminate.
+    + rewrite IH'. split.
+      * intros H x [<-|Hx] Tx; [lia|auto].
+      * intros H x Hx Tx. apply H; [right; assumption|assumption].
+Qed.
+
+Theorem BIOSACMIsBelow4G_total : forall mem l, acm_below_4g (dsz mem) l <> VPanic.
+Proof. intros. apply verd_of_found_benign. apply acm_above_benign. apply dsz_benign. Qed.
+
+(** ** IBBCovers* *)
+
+(** SOUND for every table: [covers] finds a module only if one contains [lo, hi) *)
+Lemma covers_sound : forall mem lo hi l, typed_table l ->
+  covers (dsz mem) lo hi l = Ok true ->
+  exists e, In e l /\ ft e = T_IBB /\ containsZ (fa e) (fs e * 16) lo hi.
+Proof.
+  intros mem lo hi l. induction l as [|e tl IH]; intros Hty H; [discriminate|].
+  assert (Hty' : typed_table tl) by (intros x Hx; apply Hty; right; assumption).
+  cbn [covers] in H. destruct (ft e =? T_IBB) eqn:Et.
+  - destruct (dsz mem e) as [s| | |] eqn:D; cbn [bind] in H; try discriminate.
+    apply Z.eqb_eq in Et.
+    destruct (dsz_ok_inv mem e s (Hty e (or_introl eq_refl)) D) as (S & W & K).
+    destruct (Hty e (or_introl eq_refl)) as ((A & _) & _).
+    assert (Es : s = fs e * 16) by (apply K; rewrite Et; unfold T_IBB, T_SACM; lia). subst s.
+    unfold end64 in H. rewrite wrap64_small in H by lia.
+    destruct ((fa e <=? lo) && (fa e + fs e * 16 >=? hi)) eqn:C.
+    + exists e. split; [left; reflexivity|]. split; [assumption|]. unfold containsZ. lia.
+    + destruct (IH Hty' H) as (x & Hx & R). exists x. split; [right; assumption|assumption].
+  - destruct (IH Hty' H) as (x & Hx & R). exists x. split; [right; assumption|assumption].
+Qed.
+
+(** EXACT when every BIOS startup module stays inside the address space *)
+Lemma covers_exact : forall mem lo hi l, typed_table l ->
+  (forall e, In e l -> ft e = T_IBB -> fa e + fs e * 16 < W64) ->
+  (covers (dsz mem) lo hi l = Ok true <->
+   exists e, In e l /\ ft e = T_IBB /\ containsZ (fa e) (fs e * 16) lo hi) /\
+  (exists b, covers (dsz mem) lo hi l = Ok b).
+Proof.
+  intros mem lo hi l. induction l as [|e tl IH]; intros Hty Hw.
+  - cbn. split; [|eauto]. split; [discriminate|]. intros (e & [] & _).
+  - destruct IH as [IH [b IHb]]; [intros x Hx; apply Hty; right; assumption|intros x Hx; apply Hw; right; assumption|].
+    cbn [covers]. destruct (ft e =? T_IBB) eqn:Et.
+    + apply Z.eqb_eq in Et.
+      rewrite (proj1 (dsz_ibb mem e Et (Hty e (or_introl eq_refl))) (Hw e (or_introl eq_refl) Et)). cbn [bind].
+      destruct (Hty e (or_introl eq_refl)) as ((A & _) & S).
+      pose proof (Hw e (or_introl eq_refl) Et) as W.
+      unfold end64. rewrite wrap64_small by lia.
+      destruct ((fa e <=? lo) && (fa e + fs e * 16 >=? hi)) eqn:C.
+      * split; [|eauto]. split; [|reflexivity]. intros _. exists e. split; [left; reflexivity|].
+        split; [assumption|]. unfold containsZ. lia.
+      * split; [|eauto]. rewrite IH. split.
+        -- intros (x & Hx & R). exists x. split; [right; assumption|assumption].
+        -- intros (x & [<-|Hx] & Tx & C'); [unfold containsZ in C'; lia|]. exists x. auto.
+    + split; [|eauto]. rewrite IH. split.
+      * intros (x & Hx & R). exists x. split; [right; assumption|assumption].
+      * intros (x & [<-|Hx] & Tx & C'); [lia|]. exists x. auto.
+Qed.
+
+Definition ibbs_in_space (l : list fent) : Prop := forall e, In e l -> ft e = T_IBB -> fa e + fs e * 16 < W64.
+
+Theorem IBBCovers_total : forall mem fitptr l,
+  ibb_covers_rv (dsz mem) l <> VPanic /\ ibb_covers_fv (dsz mem) l <> VPanic /\ ibb_covers_fit (dsz mem) fitptr l <> VPanic.
+Proof.
+  intros. repeat split; apply verd_of_covers_benign; apply covers_benign; apply dsz_benign.
+Qed.
+
+Theorem IBBCovers_sound : forall mem fitptr l, typed_table l ->
+  (ibb_covers_rv (dsz mem) l = pass ->
+     exists e, In e l /\ ft e = T_IBB /\ containsZ (fa e) (fs e * 16) RESET_VECTOR (RESET_VECTOR + 4)) /\
+  (ibb_covers_fv (dsz mem) l = pass ->
+     exists e, In e l /\ ft e = T_IBB /\ containsZ (fa e) (fs e * 16) FIT_VECTOR (FIT_VECTOR + 4)) /\
+  (ibb_covers_fit (dsz mem) fitptr l = pass ->
+     exists e, In e l /\ ft e = T_IBB /\ containsZ (fa e) (fs e * 16) fitptr (fitptr + Z.of_nat (length l) * 16)).
+Proof.
+  intros mem p l Hty. unfold ibb_covers_rv, ibb_covers_fv, ibb_covers_fit, fit_end.
+  repeat split; intros H; apply verd_of_covers_pass in H; eapply covers_sound; eauto.
+Qed.
+
+Theorem IBBCoversResetVector_exact_partial : forall mem l, typed_table l -> ibbs_in_space l ->
+  (ibb_covers_rv (dsz mem) l = pass <->
+   exists e, In e l /\ ft e = T_IBB /\ containsZ (fa e) (fs e * 16) RESET_VECTOR (RESET_VECTOR + 4)).
+Proof.
+  intros mem l H W. unfold ibb_covers_rv. rewrite verd_of_covers_pass. apply covers_exact; assumption.
+Qed.
+
+Theorem IBBCoversFITVector_exact_partial : forall mem l, typed_table l -> ibbs_in_space l ->
+  (ibb_covers_fv (dsz mem) l = pass <->
+   exists e, In e l /\ ft e = T_IBB /\ containsZ (fa e) (fs e * 16) FIT_VECTOR (FIT_VECTOR + 4)).
+Proof.
+  intros mem l H W. unfold ibb_covers_fv. rewrite verd_of_covers_pass. apply covers_exact; assumption.
+Qed.
+
+(** IBBCoversFIT: exact also for a table that reaches or crosses 4 GiB *)
+Theorem IBBCoversFIT_exact_partial : forall mem fitptr l, typed_table l -> ibbs_in_space l ->
+  (ibb_covers_fit (dsz mem) fitptr l = pass <->
+   exists e, In e l /\ ft e = T_IBB /\
+     containsZ (fa e) (fs e * 16) fitptr (fitptr + Z.of_nat (length l) * 16)).
+Proof.
+  intros mem p l Hty W. unfold ibb_covers_fit, fit_end. rewrite verd_of_covers_pass.
+  apply covers_exact; assumption.
+Qed.
+
+(** the former witness of the 32-bit wrap: FIT pointer 0xFFFFFFF0, two entries *)
+Theorem IBBCoversFIT_wrap32_rejected : forall mem,
+  ibb_covers_fit (dsz mem) 4294967280 [(0, 2314885530818453087, 2, 256); (7, 4294901760, 16, 256)] = fail.
+Proof. intros. vm_compute. reflexivity. Qed.
 
 (** * 2. TXT memory *)
 
@@ -316,80 +558,66 @@ Ltac brk :=
          | H : context [if ?c then _ else _] |- _ => destruct c eqn:?
          end.
 
-Theorem HeapValid_partial : forall hb hs sb ss mj,
+(** exact for every register image *)
+Theorem HeapValid_exact : forall hb hs sb ss mj,
   u32 hb -> u32 hs -> u32 sb -> u32 ss -> u32 mj ->
-  hb + hs < W32 ->                                   (* no 32-bit wrap of the heap end *)
   (heap_valid hb hs sb ss mj = pass <-> heap_spec hb hs sb ss).
 Proof.
   unfold u32, heap_spec, heap_valid, W32, FOUR_GIB, LEGACY_MIN_HEAP, MIN_SINIT.
-  intros hb hs sb ss mj Hhb Hhs Hsb Hss Hmj Hnw.
+  intros hb hs sb ss mj Hhb Hhs Hsb Hss Hmj.
   rewrite land_4095 by lia.
-  rewrite (wrap32_small (hb + hs)) by (unfold W32; lia).
   pose proof (Z.mod_pos_bound sb 4096 ltac:(lia)) as Hm.
-  assert (Hw : sb + ss < 4294967296 -> wrap32 (sb + ss) = sb + ss) by (intros; apply wrap32_small; unfold W32; lia).
-  assert (Hv : 4294967296 <= sb + ss -> wrap32 (sb + ss) = sb + ss - 4294967296) by (intros; rewrite wrap32_over; unfold W32; lia).
   pose proof (wrap32_range (sb + ss)) as Hr. unfold W32 in Hr.
   unfold pass, fail.
-  destruct (Z_lt_le_dec (sb + ss) 4294967296) as [L|L]; [rewrite (Hw L) in *|rewrite (Hv L) in *];
+  destruct (Z_lt_le_dec (sb + ss) 4294967296) as [L|L].
+  - rewrite (wrap32_small (sb + ss)) by (unfold W32; lia).
+    brk; split; intros; try discriminate; try reflexivity; try lia.
+  - brk; split; intros; try discriminate; try reflexivity; try lia.
+Qed.
+
+(** the former witness: heap [0xFFF00000, 4 GiB + 1 MiB) *)
+Theorem HeapValid_wrap32_rejected : heap_valid 4293918720 2097152 0 65536 0 = fail.
+Proof. vm_compute. reflexivity. Qed.
+
+Lemma wrap64_under z : - W64 <= z < 0 -> wrap64 z = z + W64.
+Proof.
+  intros. rewrite wrap64_mod. unfold W64 in *.
+  replace z with ((z + 18446744073709551616) + (-1) * 18446744073709551616) at 1 by lia.
+  rewrite Z.mod_add by lia. apply Z.mod_small. lia.
+Qed.
+
+(** TXTMemoryIsDPR: the DPR is the region [L - S, L) (S its size, L its top; the base is an
+    address, i.e. S <= L), at least 3 MiB; heap and SINIT start inside it, the heap ends at its
+    top, SINIT ends inside it, and 2 MiB + heap + SINIT fit into it *)
+Definition dpr_spec (S L hb hs sb ss : Z) : Prop :=
+  3 * MiB <= S /\ S <= L /\ L - S <= hb /\ (0 < sb -> L - S <= sb) /\ hb + hs = L /\
+  (0 < sb -> sb + ss <= L) /\ 2 * MiB + hs + ss <= S.
+
+(** exact for every register image *)
+Theorem DPR_exact : forall dpr hb hs sb ss,
+  u32 hb -> u32 hs -> u32 sb -> u32 ss ->
+  (memory_is_dpr dpr hb hs sb ss = pass <->
+   dpr_spec (bits dpr 4 255 * MiB) ((bits dpr 20 4095 + 1) * MiB) hb hs sb ss).
+Proof.
+  intros dpr hb hs sb ss Hhb Hhs Hsb Hss.
+  pose proof (bits_ones_range dpr 4 8 ltac:(lia)) as R1. change (Z.ones 8) with 255 in R1.
+  pose proof (bits_ones_range dpr 20 12 ltac:(lia)) as R2. change (Z.ones 12) with 4095 in R2.
+  change (2 ^ 8) with 256 in R1. change (2 ^ 12) with 4096 in R2.
+  unfold memory_is_dpr, dpr_base, dpr_limit, dpr_size, dpr_spec.
+  set (S := bits dpr 4 255 * MiB). set (L := (bits dpr 20 4095 + 1) * MiB).
+  assert (HS : 0 <= S < 256 * 1048576) by (unfold S, MiB; lia).
+  assert (HL : 1048576 <= L <= 4096 * 1048576) by (unfold L, MiB; lia).
+  unfold u32, W32, MiB in *. unfold pass, fail.
+  destruct (Z_le_gt_dec S L) as [G|G].
+  - rewrite (wrap64_small (L - S)) by (unfold W64; lia).
+    brk; split; intros; try discriminate; try reflexivity; try lia.
+  - rewrite (wrap64_under (L - S)) by (unfold W64; lia). unfold W64.
     brk; split; intros; try discriminate; try reflexivity; try lia.
 Qed.
 
-Theorem HeapValid_wrap32_refuted :
-  exists hb hs sb ss mj, u32 hb /\ u32 hs /\ u32 sb /\ u32 ss /\ u32 mj /\
-    heap_valid hb hs sb ss mj = pass /\ ~ heap_spec hb hs sb ss.
-Proof.
-  exists 4293918720, 2097152, 0, 65536, 0. unfold u32, W32.
-  repeat split; try lia; try (vm_compute; congruence).
-  unfold heap_spec, W32. lia.
-Qed.
-
-(** the vacuous guards: uint64(a+b) >= 4 GiB never fires *)
-Theorem HeapValid_guards_vacuous : forall a b, (wrap32 (a + b) >=? FOUR_GIB) = false.
-Proof. intros. pose proof (wrap32_range (a + b)). unfold W32, FOUR_GIB in *. lia. Qed.
-
-(** TXTMemoryIsDPR *)
-Definition dpr_spec (S L hb hs sb ss : Z) : Prop :=
-  3 * MiB <= S /\ L - S <= hb /\ (0 < sb -> L - S <= sb) /\ hb + hs = L /\
-  (0 < sb -> sb + ss <= L) /\ 2 * MiB + hs + ss <= S.
-
-Theorem DPR_partial : forall dpr hb hs sb ss,
-  u32 hb -> u32 hs -> u32 sb -> u32 ss ->
-  let S := bits dpr 4 255 * MiB in
-  let L := (bits dpr 20 4095 + 1) * MiB in
-  bits dpr 20 4095 < 4095 ->          (* DPR top below 4 GiB: (top+1)<<20 fits in uint32 *)
-  S <= L ->                           (* base does not underflow *)
-  hb + hs < W32 -> sb + ss < W32 ->   (* no 32-bit wrap of the region ends *)
-  2 * MiB + hs + ss <= L ->           (* limit - 2 MiB - heap - sinit does not underflow *)
-  (memory_is_dpr dpr hb hs sb ss = pass <-> dpr_spec S L hb hs sb ss).
-Proof.
-  intros dpr hb hs sb ss Hhb Hhs Hsb Hss S L Htop HSL Hh Hs Hm.
-  pose proof (bits_ones_range dpr 4 8 ltac:(lia)) as R1. change (Z.ones 8) with 255 in R1.
-  pose proof (bits_ones_range dpr 20 12 ltac:(lia)) as R2. change (Z.ones 12) with 4095 in R2.
-  unfold memory_is_dpr, dpr_base, dpr_limit, dpr_size, dpr_spec. fold S.
-  unfold u32, W32, MiB in *.
-  rewrite (wrap16_small (bits dpr 20 4095 + 1)) by (unfold W16; lia).
-  change ((bits dpr 20 4095 + 1) * 1048576) with L. unfold MiB in S, L.
-  rewrite (wrap32_small S) by (unfold W32; subst S; lia).
-  rewrite (wrap32_small L) by (unfold W32; subst L; lia).
-  rewrite (wrap32_small (L - S)) by (unfold W32; subst S L; lia).
-  rewrite (wrap32_small (hb + hs)) by (unfold W32; lia).
-  rewrite (wrap32_small (sb + ss)) by (unfold W32; lia).
-  assert (HL : L < 4294967296) by (subst L; lia).
-  rewrite (wrap32_small (L - 2 * 1048576)) by (unfold W32; lia).
-  rewrite (wrap32_small (L - 2 * 1048576 - hs)) by (unfold W32; lia).
-  rewrite (wrap32_small (L - 2 * 1048576 - hs - ss)) by (unfold W32; lia).
-  unfold pass, fail. brk; split; intros; try discriminate; try reflexivity; try lia.
-Qed.
-
-Theorem DPR_underflow_refuted :
-  exists dpr hb hs sb ss, u32 hb /\ u32 hs /\ u32 sb /\ u32 ss /\
-    memory_is_dpr dpr hb hs sb ss = pass /\
-    ~ dpr_spec (bits dpr 4 255 * MiB) ((bits dpr 20 4095 + 1) * MiB) hb hs sb ss.
-Proof.
-  exists 2146435121, 2144337920, 3145728, 0, 4026531840. unfold u32, W32.
-  repeat split; try lia; try (vm_compute; congruence).
-  intros (_ & _ & _ & _ & _ & H). vm_compute in H. apply H. reflexivity.
-Qed.
+(** the former witness: DPR [0x7FD00000, 0x80000000), a heap that fills it, SinitSize 0xF0000000 *)
+Theorem DPR_underflow_rejected : memory_is_dpr 2146435121 2144337920 3145728 0 4026531840 = fail.
+Proof. vm_compute. reflexivity. Qed.
 
 (** ValidSMRR: what a pass guarantees (read off the register values) *)
 Theorem ValidSMRR_failclosed : forall pbm pmm tb tl,
@@ -414,112 +642,7 @@ Proof.
   intros. unfold tseg_limit, valid_smrr, pass, fail. brk; discriminate.
 Qed.
 
-(** * 1b. FIT: completeness of the overlap scan, presence checks, FIT pointer/table bounds *)
-
-Section FITComplete.
-Variable dsz : fent -> outcome Z.
-Variable t2 : Z.
-Hypothesis dsz_ok : forall e, ft e = T_IBB \/ ft e = t2 -> dsz e = Ok (fs e * 16).
-
-Lemma inner_complete h tl : ft h = T_IBB ->
-  (forall e, In e tl -> ft e = t2 -> overlap_test dsz h e = Ok false) ->
-  inner dsz t2 h tl = Ok false.
-Proof.
-  intros Th. induction tl as [|x tl IH]; intros H; cbn [inner]; [reflexivity|].
-  destruct (ft x =? t2) eqn:Ex.
-  - apply Z.eqb_eq in Ex. rewrite (H x (or_introl eq_refl) Ex). cbn [bind].
-    apply IH. intros e He. apply H. right. exact He.
-  - apply IH. intros e He. apply H. right. exact He.
-Qed.
-
-Lemma pairs_complete l :
-  (forall l1 e1 l2 e2 l3, l = l1 ++ e1 :: l2 ++ e2 :: l3 ->
-     ft e1 = T_IBB -> ft e2 = t2 -> overlap_test dsz e1 e2 = Ok false) ->
-  pairs_check dsz t2 l = Ok false.
-Proof.
-  induction l as [|h tl IH]; intros H; cbn [pairs_check]; [reflexivity|].
-  assert (Htl : pairs_check dsz t2 tl = Ok false).
-  { apply IH. intros l1 e1 l2 e2 l3 E. apply (H (h :: l1) e1 l2 e2 l3). cbn [app]. rewrite E. reflexivity. }
-  destruct (ft h =? T_IBB) eqn:Eh; [|exact Htl].
-  apply Z.eqb_eq in Eh. rewrite (inner_complete h tl Eh).
-  - cbn [bind]. exact Htl.
-  - intros e He Te. destruct (in_split _ _ He) as (l2 & l3 & ->).
-    apply (H [] h l2 e l3); [reflexivity|assumption|assumption].
-Qed.
-
-Lemma overlap_test_complete e1 e2 :
-  ft e1 = T_IBB -> ft e2 = t2 -> ibb_iv_ok e1 -> ibb_iv_ok e2 ->
-  0 < fs e1 -> 0 < fs e2 ->
-  fa e1 <> fa e2 + fs e2 * 16 -> fa e2 <> fa e1 + fs e1 * 16 ->
-  ~ overlapZ (fa e1) (fs e1 * 16) (fa e2) (fs e2 * 16) ->
-  overlap_test dsz e1 e2 = Ok false.
-Proof.
-  intros T1 T2 (A1 & S1 & W1) (A2 & S2 & W2) P1 P2 N1 N2 H.
-  unfold overlap_test. rewrite (dsz_ok e2), (dsz_ok e1) by auto.
-  cbn [bind]. unfold end64. rewrite !wrap64_small by lia. f_equal.
-  destruct (fa e1 >? fa e2 + fs e2 * 16) eqn:Ea; [reflexivity|].
-  destruct (fa e2 >? fa e1 + fs e1 * 16) eqn:Eb; [reflexivity|].
-  exfalso. apply H. unfold overlapZ.
-  destruct (Z_le_gt_dec (fa e1) (fa e2)).
-  - exists (fa e2). lia.
-  - exists (fa e1). lia.
-Qed.
-End FITComplete.
-
-(** two entries neither empty nor touching: there the closed-interval test of
-    the code and the half-open reading of a range coincide *)
-Definition apart (e1 e2 : fent) : Prop :=
-  0 < fs e1 /\ 0 < fs e2 /\ fa e1 <> fa e2 + fs e2 * 16 /\ fa e2 <> fa e1 + fs e1 * 16.
-
-Lemma dsz_real_ibb : forall e, ft e = T_IBB \/ ft e = T_IBB -> dsz_real e = Ok (fs e * 16).
-Proof. intros e [He|He]; unfold dsz_real; rewrite He; reflexivity. Qed.
-
-Lemma pairs_real_ibb_total l : exists b, pairs_check dsz_real T_IBB l = Ok b.
-Proof.
-  induction l as [|h tl [b IH]]; cbn [pairs_check]; [eauto|].
-  destruct (ft h =? T_IBB) eqn:Eh; [|eauto].
-  apply Z.eqb_eq in Eh. destruct (inner_ok dsz_real T_IBB dsz_real_ibb h tl Eh) as [c Hc].
-  rewrite Hc. cbn [bind]. destruct c; eauto.
-Qed.
-
-Theorem NoIBBOverlap_total : forall l,
-  no_ibb_overlap dsz_real l = pass \/ no_ibb_overlap dsz_real l = fail.
-Proof.
-  intros l. unfold no_ibb_overlap. destruct (pairs_real_ibb_total l) as [[|] ->]; cbn; auto.
-Qed.
-
-(** exact on every table without 64-bit wrap whose BIOS startup modules are
-    pairwise [apart] (not empty, not merely touching) *)
-Theorem NoIBBOverlap_exact_partial : forall l, all_iv_ok l ->
-  (forall l1 e1 l2 e2 l3, l = l1 ++ e1 :: l2 ++ e2 :: l3 -> ft e1 = T_IBB -> ft e2 = T_IBB -> apart e1 e2) ->
-  (no_ibb_overlap dsz_real l = pass <->
-   forall l1 e1 l2 e2 l3, l = l1 ++ e1 :: l2 ++ e2 :: l3 -> ft e1 = T_IBB -> ft e2 = T_IBB ->
-     ~ overlapZ (fa e1) (fs e1 * 16) (fa e2) (fs e2 * 16)).
-Proof.
-  intros l Hok Hap. split.
-  - intros H. exact (NoIBBOverlap_sound_partial l Hok H).
-  - intros H. unfold no_ibb_overlap.
-    rewrite (pairs_complete dsz_real T_IBB l); [reflexivity|].
-    intros l1 e1 l2 e2 l3 E T1 T2.
-    destruct (Hap l1 e1 l2 e2 l3 E T1 T2) as (P1 & P2 & N1 & N2).
-    apply (overlap_test_complete dsz_real T_IBB dsz_real_ibb); try assumption.
-    + apply Hok. subst l. apply in_or_app. right. left. reflexivity.
-    + apply Hok. subst l. apply in_or_app. right. right. apply in_or_app. right. left. reflexivity.
-    + exact (H l1 e1 l2 e2 l3 E T1 T2).
-Qed.
-
-(** the healthy FIT (an IBB, then a disjoint ACM below 4 GiB) gets no verdict at all *)
-Theorem NoBIOSACMOverlap_healthy_refuted :
-  exists ibb acm, ft ibb = T_IBB /\ ft acm = T_SACM /\
-    ~ overlapZ (fa ibb) (fs ibb * 16) (fa acm) (fs acm * 16) /\
-    no_acm_overlap dsz_real [ibb; acm] = VPanic /\ acm_below_4g dsz_real [ibb; acm] = VPanic.
-Proof.
-  exists (7, 4293918720, 65536, 256), (2, 4292870144, 4096, 256).
-  split; [reflexivity|]. split; [reflexivity|]. split; [|split].
-  - intros (x & H1 & H2). unfold fa, fs in *. lia.
-  - vm_compute. reflexivity.
-  - vm_compute. reflexivity.
-Qed.
+(** * 1b. FIT: presence checks, FIT pointer/table bounds *)
 
 Theorem HasType_exact : forall t l,
   has_type t l = pass <-> exists e, In e l /\ ft e = t.
@@ -696,25 +819,10 @@ Qed.
     wanted one up to the optional bits *)
 Definition nvattr_spec (mask want opt : Z) : Prop := Z.lor mask opt = Z.lor want opt.
 
-(** what it decides *)
-Theorem NVAttr_real : forall mask want opt,
-  nvattr mask want opt = true <-> mask <> 0 \/ Z.odd (Z.lor want opt) = false.
-Proof.
-  intros mask want opt. unfold nvattr. destruct (mask =? 0) eqn:E.
-  - change 1 with (Z.ones 1). rewrite Z.land_comm, Z.land_ones by lia.
-    change (2 ^ 1) with 2. rewrite Zmod_odd.
-    destruct (Z.odd (Z.lor want opt)); cbn; split; intros; try lia.
-  - rewrite Z.land_0_l. cbn. split; intros; [left; lia|reflexivity].
-Qed.
-
-Theorem NVAttr_exact_refuted :
-  (exists mask want opt, 0 <= mask /\ nvattr mask want opt = true /\ ~ nvattr_spec mask want opt) /\
-  (exists mask want opt, 0 <= mask /\ nvattr mask want opt = false /\ nvattr_spec mask want opt).
-Proof.
-  split.
-  - exists 1, PS20_ATTR, ATTR_WRITTEN. split; [lia|]. split; [reflexivity|]. unfold nvattr_spec. vm_compute. discriminate.
-  - exists 0, 0, 1. split; [lia|]. split; reflexivity.
-Qed.
+(** exact *)
+Theorem NVAttr_exact : forall mask want opt,
+  nvattr mask want opt = true <-> nvattr_spec mask want opt.
+Proof. intros. unfold nvattr, nvattr_spec. apply Z.eqb_eq. Qed.
 
 (** TPM 2.0 digest sizes by TPM_ALG_ID (TCG algorithm registry): SHA1, SHA256,
     SHA384, SHA512, SM3-256 *)
@@ -729,94 +837,82 @@ Definition nv20_spec (which namealg attrs ds : Z) : Prop :=
   exists d, tpm_digest namealg = Some d /\
     ds = (if which =? 1 then 2 * d + 40 else d + 38).
 
-Theorem NVIndex20_real : forall which blob, which = 0 \/ which = 1 ->
-  (nv_index_config20 which blob = pass <->
-   exists namealg attrs h ds hsz, parse_nvpub blob = Some (namealg, attrs, h, ds) /\
-     nvattr attrs (idx_want which) ATTR_WRITTEN = true /\
-     go_hash_size' namealg = Some hsz /\ ds = idx_size which hsz).
+Lemma tpm_hash_digest alg : alg <> 18 -> tpm_hash_size alg = tpm_digest alg.
+Proof. intros. unfold tpm_hash_size, tpm_digest. replace (alg =? 18) with false by lia. reflexivity. Qed.
+
+Lemma idx_size_small which d : tpm_hash_size 4 = Some d \/ tpm_hash_size 11 = Some d \/ tpm_hash_size 12 = Some d \/ tpm_hash_size 13 = Some d ->
+  idx_size which d = (if which =? 1 then 2 * d + 40 else d + 38).
 Proof.
-  intros which blob Hw. unfold nv_index_config20.
-  destruct (parse_nvpub blob) as [[[[namealg attrs] h] ds]|].
-  - destruct (nvattr attrs (idx_want which) ATTR_WRITTEN) eqn:Ea; cbn [negb].
-    + destruct (go_hash_size' namealg) as [hsz|] eqn:Eh.
-      * destruct (ds =? idx_size which hsz) eqn:Ed; cbn [negb].
-        -- replace (which =? 2) with false by lia. split; [|reflexivity]. intros _.
-           exists namealg, attrs, h, ds, hsz. repeat split; try assumption; lia.
-        -- unfold pass, fail. split; [discriminate|].
-           intros (a & b & c & d & e & Hp & _ & Hh & Hd). injection Hp as <- <- <- <-.
-           rewrite Eh in Hh. injection Hh as <-. lia.
-      * unfold pass. split; [discriminate|].
-        intros (a & b & c & d & e & Hp & _ & Hh & _). injection Hp as <- <- <- <-.
-        rewrite Eh in Hh. discriminate Hh.
-    + unfold pass, fail. split; [discriminate|].
-      intros (a & b & c & d & e & Hp & Hx & _). injection Hp as <- <- <- <-.
-      rewrite Ea in Hx. discriminate Hx.
-  - unfold pass, ierr. split; [discriminate|]. intros (a & b & c & d & e & Hx & _). discriminate Hx.
+  intros [H|[H|[H|H]]]; vm_compute in H; injection H as <-; unfold idx_size; destruct (which =? 1); reflexivity.
 Qed.
 
-(** a correctly configured PS / AUX index with a SHA-2 name algorithm IS accepted *)
-Theorem NVIndex20_accepts_partial : forall which blob namealg attrs h ds,
-  which = 0 \/ which = 1 ->
-  parse_nvpub blob = Some (namealg, attrs, h, ds) ->
-  namealg = 11 \/ namealg = 12 \/ namealg = 13 ->        (* not SHA1, not SM3 *)
-  0 <= attrs -> nv20_spec which namealg attrs ds ->
-  nv_index_config20 which blob = pass.
+(** PSIndexConfig / AUXIndexConfig / POIndexConfig, TPM 2.0: never a panic *)
+Theorem NVIndex20_total : forall which blob, nv_index_config20 which blob <> VPanic.
 Proof.
-  intros which blob namealg attrs h ds Hw Hp Ha Hat (Hattr & d & Hd & Hds).
-  apply NVIndex20_real; [assumption|].
-  assert (Hne : attrs <> 0).
-  { intros ->. unfold nvattr_spec in Hattr. destruct Hw as [-> | ->]; vm_compute in Hattr; discriminate. }
-  assert (Hnv : nvattr attrs (idx_want which) ATTR_WRITTEN = true) by (apply NVAttr_real; left; assumption).
-  destruct Ha as [-> | [-> | ->]]; vm_compute in Hd; injection Hd as <-;
-    destruct Hw as [-> | ->]; cbn in Hds; subst ds.
-  - exists 11, attrs, h, 70, 32. repeat split; assumption || reflexivity.
-  - exists 11, attrs, h, 104, 32. repeat split; assumption || reflexivity.
-  - exists 12, attrs, h, 86, 48. repeat split; assumption || reflexivity.
-  - exists 12, attrs, h, 136, 48. repeat split; assumption || reflexivity.
-  - exists 13, attrs, h, 102, 64. repeat split; assumption || reflexivity.
-  - exists 13, attrs, h, 168, 64. repeat split; assumption || reflexivity.
+  intros. unfold nv_index_config20, ierr, fail, pass.
+  destruct (parse_nvpub blob) as [[[[namealg attrs] h] ds]|]; [|discriminate].
+  destruct (negb _); [discriminate|]. destruct (tpm_hash_size namealg); [|discriminate].
+  destruct (negb _); discriminate.
 Qed.
 
-(** a PS index: index 0x01C10103, SHA256, the given attributes, 32-byte policy, data size 70 *)
+(** EXACT for all three indices and every name algorithm but SM3-256 (go-tpm's
+    Algorithm.Hash() does not know it: finding C05-NVIndex-SM3-lib) *)
+Theorem NVIndex20_exact_partial : forall which blob namealg attrs h ds,
+  parse_nvpub blob = Some (namealg, attrs, h, ds) -> namealg <> 18 ->
+  (nv_index_config20 which blob = pass <-> nv20_spec which namealg attrs ds).
+Proof.
+  intros which blob namealg attrs h ds Hp Hn. unfold nv_index_config20, nv20_spec. rewrite Hp.
+  rewrite <- (tpm_hash_digest namealg Hn).
+  destruct (nvattr attrs (idx_want which) ATTR_WRITTEN) eqn:Ea; cbn [negb].
+  - apply NVAttr_exact in Ea.
+    destruct (tpm_hash_size namealg) as [d|] eqn:Eh.
+    + assert (Hs : idx_size which d = (if which =? 1 then 2 * d + 40 else d + 38)).
+      { apply idx_size_small. unfold tpm_hash_size in Eh.
+        destruct (namealg =? 4) eqn:E4; [left; exact Eh|].
+        destruct (namealg =? 11) eqn:E11; [right; left; exact Eh|].
+        destruct (namealg =? 12) eqn:E12; [right; right; left; exact Eh|].
+        destruct (namealg =? 13) eqn:E13; [right; right; right; exact Eh|discriminate]. }
+      rewrite Hs. destruct (ds =? _) eqn:Ed; cbn [negb].
+      * split; [|reflexivity]. intros _. split; [assumption|]. exists d. split; [reflexivity|lia].
+      * unfold pass, fail. split; [discriminate|]. intros (_ & d' & [= <-] & Hd). lia.
+    + unfold pass, fail. split; [discriminate|]. intros (_ & d' & Hd & _). discriminate.
+  - unfold pass, fail. split; [discriminate|]. intros (Hx & _). apply NVAttr_exact in Hx. congruence.
+Qed.
+
+(** whatever the name algorithm: a pass means the specified pattern (fail closed) *)
+Theorem NVIndex20_sound : forall which blob,
+  nv_index_config20 which blob = pass ->
+  exists namealg attrs h ds, parse_nvpub blob = Some (namealg, attrs, h, ds) /\ nv20_spec which namealg attrs ds.
+Proof.
+  intros which blob H. unfold nv_index_config20 in H.
+  destruct (parse_nvpub blob) as [[[[namealg attrs] h] ds]|] eqn:Hp; [|discriminate].
+  exists namealg, attrs, h, ds. split; [reflexivity|].
+  destruct (Z.eq_dec namealg 18) as [->|Hn].
+  - destruct (negb _); [discriminate|]. vm_compute in H. discriminate.
+  - apply (NVIndex20_exact_partial which blob namealg attrs h ds Hp Hn). unfold nv_index_config20. rewrite Hp. exact H.
+Qed.
+
+(** a PS index: index 0x01C10103, the given name algorithm and attributes, 32-byte policy *)
 Definition ps_blob (attrs : list Z) (namealg ds : Z) : list Z :=
   [1; 193; 1; 3; 0; namealg] ++ attrs ++ [0; 32] ++ repeat 0 32 ++ [0; ds].
 
-Theorem NVIndex20_refuted :
-  (* attributes that differ from the required ones (only PPWRITE set) are accepted *)
-  (exists blob namealg attrs h ds, parse_nvpub blob = Some (namealg, attrs, h, ds) /\
-     nv_index_config20 0 blob = pass /\ ~ nv20_spec 0 namealg attrs ds) /\
-  (* a correct SHA1 index is rejected, one sized for SHA-224 is accepted *)
-  (exists blob namealg attrs h ds, parse_nvpub blob = Some (namealg, attrs, h, ds) /\
-     nv20_spec 0 namealg attrs ds /\ nv_index_config20 0 blob = fail) /\
-  (* name algorithm 0x27 (SHA3-256): no verdict *)
-  (exists blob, nv_index_config20 0 blob = VPanic).
-Proof.
-  split; [|split].
-  - exists (ps_blob [0; 0; 0; 1] 11 70), 11, 1, (repeat 0 32), 70.
-    split; [vm_compute; reflexivity|]. split; [vm_compute; reflexivity|].
-    intros (H & _). unfold nvattr_spec in H. vm_compute in H. discriminate.
-  - exists (ps_blob [98; 4; 4; 8] 4 58), 4, PS20_ATTR, (repeat 0 32), 58.
-    split; [vm_compute; reflexivity|]. split; [|vm_compute; reflexivity].
-    split; [reflexivity|]. exists 20. split; reflexivity.
-  - exists (ps_blob [98; 4; 4; 8] 39 70). vm_compute. reflexivity.
-Qed.
+(** the former witnesses: attributes with only PPWRITE set are rejected, a correct SHA1 index
+    is accepted, name algorithm 0x27 gives a verdict, a correct PO index is accepted *)
+Theorem NVIndex20_former_witnesses :
+  nv_index_config20 0 (ps_blob [0; 0; 0; 1] 11 70) = fail /\
+  nv_index_config20 0 (ps_blob [98; 4; 4; 8] 4 58) = pass /\
+  nv_index_config20 0 (ps_blob [98; 4; 4; 8] 39 70) = fail /\
+  nv_index_config20 2 (ps_blob [2; 4; 0; 10] 11 70) = pass.
+Proof. vm_compute. repeat split; reflexivity. Qed.
 
-(** POIndexConfig never accepts anything (falls out of the switch) *)
-Theorem POIndexConfig_never_passes_refuted :
-  (forall blob, nv_index_config20 2 blob <> pass) /\
-  (forall p1 p2 size attrs rst wst wd, nv_index_config12 2 p1 p2 size attrs rst wst wd <> pass) /\
-  (exists blob namealg attrs h ds, parse_nvpub blob = Some (namealg, attrs, h, ds) /\
-     nv20_spec 2 namealg attrs ds).
+(** finding C05-NVIndex-SM3-lib: a correctly configured index named by SM3-256 is rejected *)
+Theorem NVIndex20_sm3_refuted :
+  exists blob namealg attrs h ds, parse_nvpub blob = Some (namealg, attrs, h, ds) /\
+    nv20_spec 0 namealg attrs ds /\ nv_index_config20 0 blob = fail.
 Proof.
-  split; [|split].
-  - intros blob. unfold nv_index_config20.
-    destruct (parse_nvpub blob) as [[[[namealg attrs] h] ds]|]; [|unfold ierr, pass; discriminate].
-    destruct (negb (nvattr attrs (idx_want 2) ATTR_WRITTEN)); [unfold fail, pass; discriminate|].
-    destruct (go_hash_size' namealg); [|discriminate].
-    destruct (negb (ds =? idx_size 2 z)); unfold fail, pass; cbn; discriminate.
-  - intros. cbn. unfold fail, pass. discriminate.
-  - exists (ps_blob [2; 4; 0; 10] 11 70), 11, PO20_ATTR, (repeat 0 32), 70.
-    split; [vm_compute; reflexivity|]. split; [reflexivity|]. exists 32. split; reflexivity.
+  exists (ps_blob [98; 4; 4; 8] 18 70), 18, PS20_ATTR, (repeat 0 32), 70.
+  split; [vm_compute; reflexivity|]. split; [|vm_compute; reflexivity].
+  split; [reflexivity|]. exists 32. split; reflexivity.
 Qed.
 
 (** TPM 1.2 (Table J-1): exact *)
@@ -825,13 +921,15 @@ Theorem NVIndex12_exact : forall which p1 p2 size attrs rst wst wd,
      p1 = 0 /\ p2 = 0 /\ size = 54 /\ attrs = NVPER_WRITESTCLEAR /\ rst = false /\ wst = false /\ wd = true) /\
   (nv_index_config12 1 p1 p2 size attrs rst wst wd = pass <->
      p1 = 0 /\ p2 = 0 /\ size = 64 /\ attrs = 0 /\ rst = false /\ wst = false /\ wd = false) /\
+  (nv_index_config12 2 p1 p2 size attrs rst wst wd = pass <-> size = 54 /\ attrs = 0) /\
   (nv_index_config12 which p1 p2 size attrs rst wst wd = warn ->
      (which = 0 \/ which = 1) /\ p1 = 0 /\ p2 = 0 /\ rst = false /\ wst = false).
 Proof.
   intros. unfold nv_index_config12, pass, fail, warn, NVPER_WRITESTCLEAR.
-  split; [|split].
+  split; [|split; [|split]].
   - cbn [Z.eqb]. destruct rst, wst, wd; cbn [negb]; brk; split; intros; try discriminate; try reflexivity; lia.
   - cbn [Z.eqb]. destruct rst, wst, wd; cbn [negb]; brk; split; intros; try discriminate; try reflexivity; lia.
+  - cbn [Z.eqb]. brk; split; intros; try discriminate; try reflexivity; lia.
   - destruct rst, wst, wd; cbn [negb]; brk; intros; try discriminate; lia.
 Qed.
 
@@ -869,61 +967,63 @@ Qed.
 Definition lcp2_spec (preset version hashalg ptype hmask smask : Z) : Prop :=
   LCP_V3 <= version /\ hashalg = preset /\ (ptype = 0 \/ ptype = 1) /\ hmask <> 0 /\ smask <> 0.
 
-Theorem LCP2_real : forall preset version hashalg ptype hmask smask,
+Theorem LCP2_exact : forall preset version hashalg ptype hmask smask,
   (lcp_valid2 preset version hashalg ptype hmask smask = pass <->
-   lcp2_spec preset version hashalg ptype hmask smask /\ ptype = 1) /\
-  (lcp_valid2 preset version hashalg ptype hmask smask = VPanic <->
-   LCP_V3 <= version /\ hashalg = preset /\ ptype <> 1).
+   lcp2_spec preset version hashalg ptype hmask smask) /\
+  lcp_valid2 preset version hashalg ptype hmask smask <> VPanic.
 Proof.
   intros. unfold lcp_valid2, lcp2_spec, pass, fail, LCP_V3.
-  split; brk; split; intros; try discriminate; try reflexivity; lia.
+  split; brk; try split; intros; try discriminate; try reflexivity; lia.
 Qed.
 
-Theorem LCP2_list_refuted :
-  exists preset version hashalg ptype hmask smask,
-    lcp2_spec preset version hashalg ptype hmask smask /\
-    lcp_valid2 preset version hashalg ptype hmask smask = VPanic.
-Proof.
-  exists 11, 768, 11, 0, 8, 8. split; [unfold lcp2_spec, LCP_V3; lia|reflexivity].
-Qed.
+(** the former witness: a v3.0 SHA256 LIST policy *)
+Theorem LCP2_list_accepted : lcp_valid2 11 768 11 0 8 8 = pass.
+Proof. reflexivity. Qed.
 
 (** SINIT ACM / TPM family *)
 Definition sinit_spec (caps tpm : Z) (present : bool) : Prop :=
   present = true /\ ((tpm = 1 /\ Z.land caps FAM_DTPM12 <> 0) \/ (tpm = 2 /\ Z.land caps FAM_DTPM20 <> 0)).
 
+(** what the check decides: the SINIT ACM (the first module of the region) alone, accepted iff
+    its capabilities word is non-zero (finding C05-SINITTPMSpec-precedence) *)
 Theorem SINITTPMSpec_real : forall caps1 caps2 tpm present,
   sinit_tpm_spec caps1 caps2 tpm present = pass <->
-  exists c, caps2 = Some c /\ c <> 0 /\ present = true /\ (tpm = 1 \/ tpm = 2).
+  caps1 <> 0 /\ present = true /\ (tpm = 1 \/ tpm = 2).
 Proof.
-  intros caps1 [c|] tpm present; unfold sinit_tpm_spec.
-  - destruct (c =? 0) eqn:Ec.
-    + change (Z.land 1 (Z.lor FAM_DTPM12 FAM_BOTH) =? 0) with false.
-      change (Z.land 1 (Z.lor FAM_DTPM20 FAM_BOTH) =? 0) with false. cbn [andb].
-      unfold pass, fail. split; [discriminate|]. intros (x & [= <-] & H & _). lia.
-    + rewrite !Z.land_0_l. cbn [Z.eqb andb].
-      destruct present; rewrite ?Bool.andb_true_r, ?Bool.andb_false_r.
-      * destruct (tpm =? 1) eqn:E1; [|destruct (tpm =? 2) eqn:E2].
-        -- split; [|reflexivity]. intros _. exists c. repeat split; lia.
-        -- split; [|reflexivity]. intros _. exists c. repeat split; lia.
-        -- unfold pass, fail. split; [discriminate|]. intros (x & _ & _ & _ & H). lia.
-      * unfold pass, fail. split; [discriminate|]. intros (x & _ & _ & H & _). discriminate H.
-  - unfold pass, fail. split; [discriminate|]. intros (x & H & _). discriminate H.
+  intros c caps2 tpm present; unfold sinit_tpm_spec.
+  destruct (c =? 0) eqn:Ec.
+  - change (Z.land 1 (Z.lor FAM_DTPM12 FAM_BOTH) =? 0) with false.
+    change (Z.land 1 (Z.lor FAM_DTPM20 FAM_BOTH) =? 0) with false. cbn [andb].
+    unfold pass, fail. split; [discriminate|]. intros (H & _). lia.
+  - rewrite !Z.land_0_l. cbn [Z.eqb andb].
+    destruct present; rewrite ?Bool.andb_true_r, ?Bool.andb_false_r.
+    + destruct (tpm =? 1) eqn:E1; [|destruct (tpm =? 2) eqn:E2].
+      * split; [|reflexivity]. intros _. repeat split; lia.
+      * split; [|reflexivity]. intros _. repeat split; lia.
+      * unfold pass, fail. split; [discriminate|]. intros (_ & _ & H). lia.
+    + unfold pass, fail. split; [discriminate|]. intros (_ & H & _). discriminate H.
 Qed.
 
-Theorem SINITTPMSpec_refuted :
-  (* the real layout (nothing parseable behind the ACM): a supporting ACM is rejected *)
-  (forall caps tpm present, sinit_tpm_spec caps None tpm present = fail) /\
-  (exists caps tpm, sinit_spec caps tpm true) /\
-  (* the capability test accepts an ACM that lists only the other family ... *)
-  (exists caps tpm, sinit_tpm_spec caps (Some caps) tpm true = pass /\ ~ sinit_spec caps tpm true) /\
-  (* ... and judges the module behind the SINIT ACM, not the SINIT ACM *)
-  (exists caps1 caps2 tpm, sinit_spec caps1 tpm true /\ sinit_tpm_spec caps1 (Some caps2) tpm true = fail).
+(** a SINIT ACM that lists the family of the TPM in use IS accepted, whatever follows it in the region *)
+Theorem SINITTPMSpec_accepts : forall caps1 caps2 tpm present,
+  sinit_spec caps1 tpm present -> sinit_tpm_spec caps1 caps2 tpm present = pass.
 Proof.
-  split; [|split; [|split]].
-  - reflexivity.
-  - exists 17, 2. split; [reflexivity|]. right. split; [reflexivity|]. vm_compute. discriminate.
-  - exists 16, 1. split; [reflexivity|]. intros (_ & [(_ & H)|(H & _)]); [apply H; reflexivity|discriminate].
-  - exists 17, 0, 2. split; [|reflexivity]. split; [reflexivity|]. right. split; [reflexivity|]. vm_compute. discriminate.
+  intros caps1 caps2 tpm present (Hp & H). apply SINITTPMSpec_real.
+  split; [|split; [assumption|]].
+  - intros ->. destruct H as [(_ & H)|(_ & H)]; apply H; reflexivity.
+  - destruct H as [(H & _)|(H & _)]; [left|right]; assumption.
+Qed.
+
+(** the module behind the SINIT ACM is not looked at *)
+Theorem SINITTPMSpec_first_module : forall caps1 caps2 caps2' tpm present,
+  sinit_tpm_spec caps1 caps2 tpm present = sinit_tpm_spec caps1 caps2' tpm present.
+Proof. reflexivity. Qed.
+
+(** ... but the capability test accepts an ACM that lists only the other family *)
+Theorem SINITTPMSpec_refuted :
+  exists caps tpm, sinit_tpm_spec caps None tpm true = pass /\ ~ sinit_spec caps tpm true.
+Proof.
+  exists 16, 1. split; [reflexivity|]. intros (_ & [(_ & H)|(H & _)]); [apply H; reflexivity|discriminate].
 Qed.
 
 (** * 4. Boot Guard provisioning and manifest-security verdicts: fail closed *)
@@ -1000,14 +1100,14 @@ Proof.
     brk; split; intros; try discriminate; try reflexivity; lia.
 Qed.
 
-(** every verdict that switches on the Boot Guard version reports success for
-    a version that is neither 1.0 nor 2.0, whatever the manifests say *)
-Theorem BG_unknown_version_failopen_refuted : forall v, v <> 1 -> v <> 2 ->
-  (forall f a b c, validate_me v f a b c = good) /\
-  (forall nse algs lsize sig, bpm_crypto v nse algs lsize sig = good) /\
-  (forall a1 algs, km_crypto v a1 algs = good) /\
-  (forall nse flags pbet base0 vtdbar txte nseg, sane_bpm v nse flags pbet base0 vtdbar txte nseg = good) /\
-  (forall nse flags pbet base0 vtdbar txte nseg, strict_sane_bpm v nse flags pbet base0 vtdbar txte nseg = good).
+(** no verdict that switches on the Boot Guard version reports success for a version that is
+    neither 1.0 nor 2.0 *)
+Theorem BG_unknown_version_failclosed : forall v, v <> 1 -> v <> 2 ->
+  (forall f a b c, validate_me v f a b c = bad) /\
+  (forall nse algs lsize sig, bpm_crypto v nse algs lsize sig = bad) /\
+  (forall a1 algs, km_crypto v a1 algs = bad) /\
+  (forall nse flags pbet base0 vtdbar txte nseg, sane_bpm v nse flags pbet base0 vtdbar txte nseg = bad) /\
+  (forall nse flags pbet base0 vtdbar txte nseg, strict_sane_bpm v nse flags pbet base0 vtdbar txte nseg = bad).
 Proof.
   intros v H1 H2.
   assert (E1 : (v =? 1) = false) by lia. assert (E2 : (v =? 2) = false) by lia.
@@ -1016,37 +1116,39 @@ Proof.
 Qed.
 
 (** BPMCryptoSecure / KMCryptoSecure *)
-Theorem BPMCrypto_v1_exact : forall nse algs lsize sig, nse <> 0 ->
-  (bpm_crypto 1 nse algs lsize sig = good <-> insecure_alg (hd 0 algs) = false /\ insecure_alg sig = false).
+Theorem BPMCrypto_v1_exact : forall nse algs lsize sig,
+  (bpm_crypto 1 nse algs lsize sig = good <->
+   nse <> 0 /\ insecure_alg (hd 0 algs) = false /\ insecure_alg sig = false).
 Proof.
-  intros nse algs lsize sig Hn. unfold bpm_crypto, good, bad. cbn [Z.eqb].
-  replace (nse =? 0) with false by lia.
-  destruct (insecure_alg (hd 0 algs)), (insecure_alg sig); split; intros; try discriminate; try reflexivity; try tauto;
-    destruct H; discriminate.
+  intros nse algs lsize sig. unfold bpm_crypto, good, bad. cbn [Z.eqb].
+  destruct (nse =? 0) eqn:En.
+  - split; [discriminate|]. intros (H & _). lia.
+  - destruct (insecure_alg (hd 0 algs)), (insecure_alg sig); split; intros; try discriminate; try reflexivity;
+      try (repeat split; (lia || reflexivity)); decompose [and] H; discriminate.
 Qed.
 
-Theorem BPMCrypto_v2_real : forall nse algs lsize sig, nse <> 0 ->
+(** CBnT: the BPM signature must not use SHA1/Null, and a SHA1/Null IBB digest is tolerated
+    only next to another digest (never as the only one); DigestList.Size plays no role *)
+Theorem BPMCrypto_v2_exact : forall nse algs lsize sig,
   (bpm_crypto 2 nse algs lsize sig = good <->
-   insecure_alg sig = false /\ (lsize < 2 -> forall a, In a algs -> insecure_alg a = false)).
+   nse <> 0 /\ insecure_alg sig = false /\ (forall a, algs = [a] -> insecure_alg a = false)).
 Proof.
-  intros nse algs lsize sig Hn. unfold bpm_crypto, good, bad. cbn [Z.eqb].
-  replace (nse =? 0) with false by lia.
-  destruct (existsb (fun a => insecure_alg a && (lsize <? 2)) algs) eqn:Ex.
-  - split; [discriminate|]. intros [_ H]. apply existsb_exists in Ex. destruct Ex as (a & Ha & Hb).
-    apply andb_prop in Hb. destruct Hb as [Hb1 Hb2]. rewrite (H ltac:(lia) a Ha) in Hb1. discriminate.
-  - destruct (insecure_alg sig); [split; [discriminate|intros [H _]; discriminate]|].
-    split; [|reflexivity]. intros _. split; [reflexivity|]. intros Hl a Ha.
-    destruct (insecure_alg a) eqn:Ea; [|reflexivity].
-    assert (existsb (fun a => insecure_alg a && (lsize <? 2)) algs = true).
-    { apply existsb_exists. exists a. split; [assumption|]. rewrite Ea. cbn. lia. }
-    congruence.
+  intros nse algs lsize sig. unfold bpm_crypto, good, bad. cbn [Z.eqb].
+  destruct (nse =? 0) eqn:En.
+  { split; [discriminate|]. intros (H & _). lia. }
+  destruct (existsb (fun a => insecure_alg a && (Z.of_nat (length algs) <? 2)) algs) eqn:Ex.
+  - split; [discriminate|]. intros (_ & _ & H). apply existsb_exists in Ex. destruct Ex as (a & Ha & Hb).
+    apply andb_prop in Hb. destruct Hb as [Hb1 Hb2].
+    destruct algs as [|x [|y t]]; [destruct Ha| |cbn [length] in Hb2; lia].
+    destruct Ha as [<-|[]]. rewrite (H x eq_refl) in Hb1. discriminate.
+  - destruct (insecure_alg sig); [split; [discriminate|intros (_ & H & _); discriminate]|].
+    split; [|reflexivity]. intros _. split; [lia|]. split; [reflexivity|]. intros a ->.
+    cbn in Ex. destruct (insecure_alg a); [discriminate|reflexivity].
 Qed.
 
-(** DigestList.Size is the byte size of the list (>= 4): the guard never fires *)
-Theorem BPMCrypto_v2_sha1_refuted :
-  exists algs lsize sig, 4 <= lsize /\ insecure_alg (hd 0 algs) = true /\
-    bpm_crypto 2 1 algs lsize sig = good.
-Proof. exists [4], 28, 11. split; [lia|]. split; reflexivity. Qed.
+(** the former witness: a single SHA1 digest, DigestList.Size 28 *)
+Theorem BPMCrypto_v2_sha1_rejected : bpm_crypto 2 1 [4] 28 11 = bad.
+Proof. reflexivity. Qed.
 
 Theorem KMCrypto_exact : forall a1 algs,
   (km_crypto 1 a1 algs = good <-> insecure_alg a1 = false /\ insecure_alg (hd 0 algs) = false) /\
@@ -1066,55 +1168,70 @@ Qed.
 
 (** SaneBPMSecurityProps: none of the named disqualifying conditions holds
     (DMA protection off, PCR-7 authority measurement off, PBET 0, no IBB
-    segment, S-ACM not extending static PCRs) *)
+    segment, S-ACM not extending static PCRs - which needs a TXT element) *)
 Definition bpm_ok (v flags pbet base0 vtdbar : Z) (txte : option Z) (nseg : Z) : Prop :=
   (v = 1 -> bit flags 0 = true) /\
   (v = 2 -> bit flags 0 = true \/ base0 <> 0 \/ vtdbar <> 0) /\
   bit flags 2 = true /\ Z.land pbet 15 <> 0 /\ 1 <= nseg /\
   (v = 2 -> exists cf, txte = Some cf /\ bit cf 9 = false).
 
-Lemma sane_bpm_v1 nse flags pbet base0 vtdbar txte nseg : nse <> 0 ->
+Lemma sane_bpm_v1 nse flags pbet base0 vtdbar txte nseg :
   (sane_bpm 1 nse flags pbet base0 vtdbar txte nseg = good <->
-   bit flags 0 = true /\ bit flags 2 = true /\ Z.land pbet 15 <> 0 /\ 1 <= nseg).
+   nse <> 0 /\ bit flags 0 = true /\ bit flags 2 = true /\ Z.land pbet 15 <> 0 /\ 1 <= nseg).
 Proof.
-  intros Hn. unfold sane_bpm, good, bad. cbn [Z.eqb]. replace (nse =? 0) with false by lia.
+  unfold sane_bpm, good, bad. cbn [Z.eqb].
+  destruct (nse =? 0) eqn:En; [split; [discriminate|intros (H & _); lia]|].
   destruct (bit flags 0), (bit flags 2); cbn [negb];
     destruct (Z.land pbet 15 =? 0) eqn:Ep; destruct (nseg <? 1) eqn:Es;
     split; intros H; try discriminate H; try reflexivity;
-    try (decompose [and] H; first [discriminate | lia]).
+    try (decompose [and] H; first [discriminate | lia]);
+    repeat split; lia.
 Qed.
 
-Lemma sane_bpm_v2 nse flags pbet base0 vtdbar cf nseg : nse <> 0 ->
-  (sane_bpm 2 nse flags pbet base0 vtdbar (Some cf) nseg = good <->
+Lemma sane_bpm_v2 nse flags pbet base0 vtdbar txte nseg :
+  (sane_bpm 2 nse flags pbet base0 vtdbar txte nseg = good <->
+   nse <> 0 /\ exists cf, txte = Some cf /\
    (bit flags 0 = true \/ base0 <> 0 \/ vtdbar <> 0) /\ bit flags 2 = true /\ Z.land pbet 15 <> 0 /\
    bit cf 9 = false /\ 1 <= nseg).
 Proof.
-  intros Hn. unfold sane_bpm, good, bad. cbn [Z.eqb]. replace (nse =? 0) with false by lia.
-  destruct (bit flags 0), (bit flags 2), (bit cf 9); cbn [negb andb];
+  unfold sane_bpm, good, bad. cbn [Z.eqb].
+  destruct (nse =? 0) eqn:En; [split; [discriminate|intros (H & _); lia]|].
+  destruct txte as [cf|]; [|split; [discriminate|intros (_ & cf & H & _); discriminate]].
+  destruct (bit flags 0), (bit flags 2), (bit cf 9) eqn:E9; cbn [negb andb];
     destruct (base0 =? 0) eqn:Eb; destruct (vtdbar =? 0) eqn:Ev; cbn [andb];
     destruct (Z.land pbet 15 =? 0) eqn:Ep; destruct (nseg <? 1) eqn:Es;
     split; intros H; try discriminate H; try reflexivity;
-    try (decompose [and or] H; first [discriminate | lia]);
-    repeat split; try lia; try (left; reflexivity); try (right; left; lia); try (right; right; lia).
+    try (destruct H as (_ & cf' & [= <-] & H); rewrite ?E9 in H; decompose [and or] H; first [discriminate | lia]);
+    (split; [lia|]; exists cf; split; [reflexivity|]; rewrite ?E9;
+     repeat split; try lia; try (left; reflexivity); try (right; left; lia); try (right; right; lia)).
+Qed.
+
+(** never a panic: a verdict for every manifest (empty SE list, no TXT element included) *)
+Theorem SaneBPM_total : forall (strict : bool) v nse flags pbet base0 vtdbar txte nseg,
+  let r := (if strict then strict_sane_bpm else sane_bpm) v nse flags pbet base0 vtdbar txte nseg in
+  r = good \/ r = bad.
+Proof.
+  intros strict v nse flags pbet base0 vtdbar txte nseg. cbv zeta.
+  assert (S : sane_bpm v nse flags pbet base0 vtdbar txte nseg = good \/ sane_bpm v nse flags pbet base0 vtdbar txte nseg = bad).
+  { unfold sane_bpm, good, bad. destruct txte; brk; auto. }
+  destruct strict; [|exact S].
+  unfold strict_sane_bpm. destruct txte; brk; auto.
 Qed.
 
 Theorem SaneBPM_failclosed : forall v nse flags pbet base0 vtdbar txte nseg,
-  v = 1 \/ v = 2 ->
   sane_bpm v nse flags pbet base0 vtdbar txte nseg = good ->
-  bpm_ok v flags pbet base0 vtdbar txte nseg.
+  (v = 1 \/ v = 2) /\ nse <> 0 /\ bpm_ok v flags pbet base0 vtdbar txte nseg.
 Proof.
-  intros v nse flags pbet base0 vtdbar txte nseg [-> | ->] H.
-  - assert (Hn : nse <> 0) by (intros ->; discriminate H).
-    apply sane_bpm_v1 in H; [|assumption]. destruct H as (H0 & H2 & Hp & Hs).
-    unfold bpm_ok. repeat split; try assumption; intros; lia.
-  - assert (Hn : nse <> 0) by (intros ->; discriminate H).
-    destruct txte as [cf|].
-    + apply sane_bpm_v2 in H; [|assumption]. destruct H as (H0 & H2 & Hp & H9 & Hs).
-      unfold bpm_ok. repeat split; try assumption; try (intros; lia).
-      intros _. exists cf. split; [reflexivity|assumption].
-    + exfalso. unfold sane_bpm, good, bad in H. change (2 =? 1) with false in H. change (2 =? 2) with true in H.
-      cbv beta iota in H. replace (nse =? 0) with false in H by lia.
-      brk; discriminate H.
+  intros v nse flags pbet base0 vtdbar txte nseg H.
+  assert (Hv : v = 1 \/ v = 2).
+  { destruct (Z.eq_dec v 1); [auto|]. destruct (Z.eq_dec v 2); [auto|].
+    rewrite (proj1 (proj2 (proj2 (proj2 (BG_unknown_version_failclosed v n n0))))) in H. discriminate. }
+  split; [exact Hv|]. destruct Hv as [-> | ->].
+  - apply sane_bpm_v1 in H. destruct H as (Hn & H0 & H2 & Hp & Hs).
+    split; [assumption|]. unfold bpm_ok. repeat split; try assumption; intros; lia.
+  - apply sane_bpm_v2 in H. destruct H as (Hn & cf & -> & H0 & H2 & Hp & H9 & Hs).
+    split; [assumption|]. unfold bpm_ok. repeat split; try assumption; try (intros; lia).
+    intros _. exists cf. split; [reflexivity|assumption].
 Qed.
 
 Theorem SaneBPM_accepts : forall v nse flags pbet base0 vtdbar txte nseg,
@@ -1123,45 +1240,46 @@ Theorem SaneBPM_accepts : forall v nse flags pbet base0 vtdbar txte nseg,
   sane_bpm v nse flags pbet base0 vtdbar txte nseg = good.
 Proof.
   intros v nse flags pbet base0 vtdbar txte nseg [-> | ->] Hn (K1 & K2 & K3 & K4 & K5 & K6).
-  - apply sane_bpm_v1; [assumption|]. repeat split; try assumption. apply K1. reflexivity.
-  - destruct (K6 eq_refl) as (cf & -> & H9). apply sane_bpm_v2; [assumption|].
-    repeat split; try assumption. apply K2. reflexivity.
+  - apply sane_bpm_v1. repeat split; try assumption. apply K1. reflexivity.
+  - destruct (K6 eq_refl) as (cf & -> & H9). apply sane_bpm_v2. split; [assumption|].
+    exists cf. repeat split; try assumption. apply K2. reflexivity.
 Qed.
 
 Theorem StrictSaneBPM_failclosed : forall v nse flags pbet base0 vtdbar txte nseg,
-  v = 1 \/ v = 2 ->
   strict_sane_bpm v nse flags pbet base0 vtdbar txte nseg = good ->
+  (v = 1 \/ v = 2) /\ nse <> 0 /\
   bpm_ok v flags pbet base0 vtdbar txte nseg /\ bit flags 3 = true /\
   (v = 2 -> exists cf, txte = Some cf /\ bits cf 5 3 = 2).
 Proof.
-  intros v nse flags pbet base0 vtdbar txte nseg Hv H.
+  intros v nse flags pbet base0 vtdbar txte nseg H.
   assert (S : sane_bpm v nse flags pbet base0 vtdbar txte nseg = good /\ bit flags 3 = true /\
               (v = 2 -> exists cf, txte = Some cf /\ bits cf 5 3 = 2)).
-  { unfold strict_sane_bpm in H. destruct Hv as [-> | ->]; cbn [Z.eqb] in H.
+  { unfold strict_sane_bpm in H.
+    destruct (v =? 1) eqn:E1; [|destruct (v =? 2) eqn:E2].
     - destruct (nse =? 0); [discriminate|].
       destruct (bit flags 2); cbn [negb] in H; [|discriminate].
       destruct (bit flags 3); cbn [negb] in H; [|discriminate].
       split; [exact H|]. split; [reflexivity|]. intros; lia.
     - destruct (nse =? 0); [discriminate|].
+      destruct txte as [cf|]; [|discriminate].
       destruct (bit flags 2); cbn [negb] in H; [|discriminate].
       destruct (bit flags 3); cbn [negb] in H; [|discriminate].
-      destruct txte as [cf|]; [|discriminate].
       destruct (bits cf 5 3 =? 2) eqn:Ec; cbn [negb] in H; [|discriminate].
-      split; [exact H|]. split; [reflexivity|]. intros _. exists cf. split; [reflexivity|lia]. }
-  destruct S as (S1 & S2 & S3). split; [|split; assumption].
-  exact (SaneBPM_failclosed v nse flags pbet base0 vtdbar txte nseg Hv S1).
+      split; [exact H|]. split; [reflexivity|]. intros _. exists cf. split; [reflexivity|lia].
+    - exfalso. rewrite (proj1 (proj2 (proj2 (proj2 (BG_unknown_version_failclosed v ltac:(lia) ltac:(lia)))))) in H. discriminate. }
+  destruct S as (S1 & S2 & S3).
+  destruct (SaneBPM_failclosed v nse flags pbet base0 vtdbar txte nseg S1) as (A & B & C).
+  split; [exact A|split; [exact B|split; [exact C|split; [exact S2|exact S3]]]].
 Qed.
 
-(** no verdict at all: empty SE list, CBnT BPM without TXT element *)
-Theorem SaneBPM_panics_refuted :
-  (forall v flags pbet base0 vtdbar txte nseg, v = 1 \/ v = 2 ->
-     sane_bpm v 0 flags pbet base0 vtdbar txte nseg = VPanic) /\
-  (exists flags pbet nseg, bit flags 0 = true /\ bit flags 2 = true /\ Z.land pbet 15 <> 0 /\ 1 <= nseg /\
-     sane_bpm 2 1 flags pbet 0 0 None nseg = VPanic).
+(** the former witnesses: empty SE list, CBnT BPM without TXT element - rejected, no panic *)
+Theorem SaneBPM_former_witnesses :
+  (forall v flags pbet base0 vtdbar txte nseg, sane_bpm v 0 flags pbet base0 vtdbar txte nseg = bad) /\
+  sane_bpm 2 1 13 15 0 0 None 1 = bad /\ strict_sane_bpm 2 1 13 15 0 0 None 1 = bad.
 Proof.
-  split.
-  - intros v flags pbet base0 vtdbar txte nseg [-> | ->]; reflexivity.
-  - exists 13, 15, 1. repeat split; try reflexivity; try lia. vm_compute. discriminate.
+  split; [|split; reflexivity].
+  intros v flags pbet base0 vtdbar txte nseg. unfold sane_bpm, bad. change (0 =? 0) with true.
+  destruct (v =? 1), (v =? 2); reflexivity.
 Qed.
 
 (** * 5. Single-register verdicts: exact bit patterns *)
@@ -1185,20 +1303,17 @@ Qed.
 Definition debug_spec (ecx msr : Z) : Prop :=
   bit ecx 11 = false \/ (bit msr 31 = false /\ bit msr 30 = true /\ bit msr 0 = false).
 
-Theorem DebugInterface_real : forall ecx msr,
-  debug_locked ecx msr = pass <->
-  bit ecx 11 = true \/ (bit msr 31 = false /\ bit msr 30 = true /\ bit msr 0 = false).
+Theorem DebugInterface_exact : forall ecx msr,
+  debug_locked ecx msr = pass <-> debug_spec ecx msr.
 Proof.
-  intros. unfold debug_locked, pass, fail.
+  intros. unfold debug_locked, debug_spec, pass, fail.
   destruct (bit ecx 11), (bit msr 31), (bit msr 30), (bit msr 0); cbn; split; intros; try discriminate; try reflexivity; try tauto;
     decompose [or and] H; discriminate.
 Qed.
 
-Theorem DebugInterface_inverted_refuted :
-  exists ecx msr, debug_locked ecx msr = pass /\ ~ debug_spec ecx msr.
-Proof.
-  exists 2048, 1. split; [reflexivity|]. unfold debug_spec. intros [H|(_ & H & _)]; vm_compute in H; discriminate.
-Qed.
+(** the former witness: interface present (ECX[11] = 1), enabled and unlocked *)
+Theorem DebugInterface_enabled_rejected : debug_locked 2048 1 = fail.
+Proof. reflexivity. Qed.
 
 Theorem SmallChecks_exact :
   (forall e, no_sinit_errors e = pass <-> e = 3221225473) /\
